@@ -14,11 +14,12 @@ RULE = ("every case runs in a forked child under ASan/UBSan/_GLIBCXX_ASSERTIONS 
         "object and again call by call on fresh objects (fresh=1 demanded). WAV intake: every prefix of grammar-built WAVs, "
         "every integer field x boundary values incl. chunk lengths that wrap a 32-bit cursor (0xFFFFFFF8, 0xFFFFFFF0, the "
         "values that land on 0, 12, the chunk itself, or a 2-chunk cycle), random byte strings and random mutations")
-PROVED = ("see lean/Op2Proofs/Props/C05_Clm.lean: the chunk walk with the 64-bit cursor returns within len/8+1 rounds on every "
-          "content (C05_walk_terminates), so intake/create never yield `hang`; with the pinned 32-bit cursor the walk exhausts "
-          "every fuel on the D9 witness (counterexample kept); stream/extract deliver exactly the recorded extent or refuse, "
-          "never short (C05_stream_exact); open accepts only files holding the whole header and index; calls do not change the "
-          "view (history independence)")
+PROVED = ("C05_walk_terminates: the chunk walk with the 64-bit cursor returns within len/8+1 rounds on every content < 2^63 bytes and "
+          "every tag (+ fuel independence); C05_create_returns: arbitrary bytes offered as WAVs end in err or an archive, never hang; "
+          "C05_D9_32bit_cursor_never_returns: with the pinned 32-bit cursor the walk exhausts EVERY fuel on the D9 witness; "
+          "C05_stream_exact / C05_stream_refuses_outside / C05_extract_exact: exactly the recorded extent or refusal, never short; "
+          "C05_index_out_of_bounds; C05_open_reads_inside (header and whole index inside the file, entry i = the 16 bytes at 60+16i); "
+          "C05_truncated_refused (every prefix cutting into header or index); C05_history_independent; C05_gen_cursor_width")
 PARTIAL = ("memory safety proper (heap layout, allocator) is not a model value: covered by the instrumented run only. An index "
            "whose size exceeds the harness allocation cap (1 GiB) is canonicalised as err:alloc on both sides. History "
            "independence is immediate in the model because the C++ object keeps no mutable state after construction (every "
